@@ -88,6 +88,11 @@ func (*prop) Cases(seed int64, tier string) []core.Case {
 		cs = append(cs, core.MkCase("random", map[string]int{"n": randN}))
 	}
 	cs = append(cs, core.MkCase("order", nil))
+	nmany := 200_000
+	if tier == "thorough" {
+		nmany = 1_000_000
+	}
+	cs = append(cs, core.MkCase("many-distinct", map[string]int{"n": nmany}))
 	nfirst := 2
 	if tier == "thorough" {
 		nfirst = 12
@@ -518,6 +523,54 @@ func (p *prop) runFirstUse(c core.Case, w *core.Worker, res *core.Result) {
 	}
 }
 
+// runManyDistinct: very many distinct inputs through ONE process (enough for a birthday collision in any 32-bit key
+// space: 200 000 inputs give about five colliding pairs, a million about a hundred), forwards in one fresh process and
+// backwards in another; a memo keyed by anything less than the input itself makes the two disagree.
+func (p *prop) runManyDistinct(c core.Case, w *core.Worker, res *core.Result) {
+	var pa map[string]int
+	c.Decode(&pa)
+	r := rand.New(rand.NewSource(c.Seed))
+	seen := map[string]bool{}
+	inputs := make([]string, 0, pa["n"])
+	var tails []string
+	for _, o := range ops {
+		tails = append(tails, o.irr...)
+	}
+	for len(inputs) < pa["n"] {
+		b := make([]byte, 3+r.Intn(7))
+		for j := range b {
+			b[j] = byte('a' + r.Intn(26))
+		}
+		s := string(b)
+		switch r.Intn(8) {
+		case 0:
+			s += " " + tails[r.Intn(len(tails))]
+		case 1:
+			s += "-" + tails[r.Intn(len(tails))]
+		case 2:
+			s = strings.ToUpper(s[:1]) + s[1:]
+		}
+		if !seen[s] {
+			seen[s] = true
+			inputs = append(inputs, s)
+		}
+	}
+	diffs, problem := firstuse.ManyDistinct(w.Scratch, fmt.Sprintf("c20many-%d", c.ID), "inflector", inputs)
+	if problem != "" {
+		res.Inconclusive = append(res.Inconclusive, "many-distinct: "+clipS(problem, 800))
+		return
+	}
+	res.Evals += int64(len(inputs))
+	res.Count("many_distinct_inputs_compared_across_orders", int64(len(inputs)))
+	res.NonTrivial(fmt.Sprintf("many-distinct|%d|%d", c.Seed, len(inputs)))
+	for i, d := range diffs {
+		if i >= 20 {
+			break
+		}
+		res.Fail("order-independent", "many distinct "+d.Func, fmt.Sprintf("%s(%q) = %q in a process that saw %d distinct inputs forwards, %q in one that saw them backwards", d.Func, d.Input, d.Forward, len(inputs), d.Reverse), d.Input)
+	}
+}
+
 func clipS(s string, n int) string {
 	if len(s) <= n {
 		return s
@@ -629,6 +682,8 @@ func (p *prop) Run(c core.Case, w *core.Worker) core.Result {
 		p.runOrder(c, w, &res)
 	case "first-use":
 		p.runFirstUse(c, w, &res)
+	case "many-distinct":
+		p.runManyDistinct(c, w, &res)
 	}
 	return res
 }
